@@ -137,6 +137,8 @@ Record case := {
   c_rope : option prog;                (* rope's result parsed back (None: refused / not in the fragment) *)
   c_out : option (list value);         (* what CPython printed for the original project (None: non-zero exit) *)
   c_refused : option bool;             (* EncapsulateField: did rope refuse because of the accessor names *)
+  c_after : option (list value);       (* only for cases whose execution oracle failed with exit status 0: what CPython
+                                          printed for the refactored project (is the failure the one the model predicts?) *)
   c_fuel : nat
 }.
 
@@ -153,7 +155,9 @@ Definition out_eqb (a b : option (list value)) : bool :=
 (* inside the domain of both directions (C17_encapsulate / C17_factory and their _reverse) *)
 Definition in_domain (c : case) : bool := side (c_cfg c) (c_prog c) && unused_prog (c_cfg c) (c_prog c).
 
-(* bit 16: rope's refusal of the accessor names differs from [enc_refuses];
+(* bit 32: the model's run of the refactored program differs from what CPython printed for it (used to decide
+   whether an observed behaviour change is exactly the one the model predicts for a known finding);
+   bit 16: rope's refusal of the accessor names differs from [enc_refuses];
    bit 1: rope's result differs from the model's; bit 2: the model's run of the original program differs from
    CPython's output; bit 4: inside the theorem's domain, yet the model's run of the refactored program
    differs (cannot happen while the theorem is in force; sanity channel) *)
@@ -169,7 +173,12 @@ Definition run_case (c : case) : N :=
                            | None => false
                            end in
   let b16 := match c_refused c with Some b => negb (Bool.eqb b (enc_refuses k P)) | None => false end in
-  ((if b1 then 1 else 0) + (if b2 then 2 else 0) + (if b4 then 4 else 0) + (if b16 then 16 else 0))%N.
+  let b32 := match c_after c with
+             | Some _ => negb (out_eqb (output_of (run (chk_of k) P' (3 * c_fuel c + 6) [] ([], []))) (c_after c))
+             | None => false
+             end in
+  ((if b1 then 1 else 0) + (if b2 then 2 else 0) + (if b4 then 4 else 0) + (if b16 then 16 else 0)
+   + (if b32 then 32 else 0))%N.
 
 Fixpoint mismatches_from (i : N) (cs : list case) : list (N * N) :=
   match cs with
@@ -231,3 +240,62 @@ Fixpoint smismatches_from (i : N) (cs : list scase) : list (N * N) :=
       if N.eqb code 0 then smismatches_from (N.succ i) r else (i, code) :: smismatches_from (N.succ i) r
   end.
 Definition smismatches (cs : list scase) : list (N * N) := smismatches_from 0 cs.
+
+(* --- LocalToField / MethodObject cases (Local.v) ------------------------------------------------------ *)
+From RopeVerif.C17 Require Import Local.
+
+Record ocase := {
+  oc_kind : N;                         (* 0 LocalToField, 1 MethodObject *)
+  oc_prog : prog;
+  oc_unit : unit_id;
+  oc_var : N;                          (* LocalToField: the variable *)
+  oc_names : mo_names;
+  oc_rope : option prog;               (* rope's result parsed back (None: refused / crashed) *)
+  oc_refused : bool;                   (* rope raised RefactoringError *)
+  oc_out : option (list value);        (* what CPython printed for the original project *)
+  oc_after : option (list value)       (* LocalToField, only when the execution oracle failed with exit status 0: what
+                                          CPython printed for the refactored project *)
+}.
+
+Definition any_chk : heap -> value -> bool := fun _ _ => true.
+
+(* bit 1: rope's result differs from the model's; bit 2: rope's refusal differs from the model's (LocalToField);
+   bit 8 (LocalToField): the Obj run of the model's result differs from what CPython printed for the refactored
+   project (is an observed behaviour change exactly the one the model predicts?);
+   bit 4 (MethodObject): the Obj run of the model's result differs from what CPython printed for the original *)
+Definition run_ocase (c : ocase) : N :=
+  let P := oc_prog c in
+  if N.eqb (oc_kind c) 0 then
+    let refuses := l2f_refuses P (oc_unit c) (oc_var c) in
+    let b2 := negb (Bool.eqb refuses (oc_refused c)) in
+    let b1 := match oc_rope c, oc_unit c with
+              | Some R, UMethod cl m => negb (prog_eqb (erase_p (local_to_field cl m (oc_var c) P)) R)
+              | Some _, _ => true
+              | None, _ => false
+              end in
+    let b8 := match oc_after c, oc_unit c with
+              | Some _, UMethod cl m =>
+                  negb (out_eqb (output_of (run any_chk (local_to_field cl m (oc_var c) P) 200 [] ([], []))) (oc_after c))
+              | _, _ => false
+              end in
+    ((if b1 then 1 else 0) + (if b2 then 2 else 0) + (if b8 then 8 else 0))%N
+  else
+    match method_object (oc_names c) (oc_unit c) P with
+    | None => (match oc_rope c with Some _ => 1 | None => 0 end)%N
+    | Some P' =>
+        let b1 := match oc_rope c with Some R => negb (prog_eqb (erase_p P') R) | None => false end in
+        let b4 := match oc_out c with
+                  | Some _ => negb (out_eqb (output_of (run any_chk P' 200 [] ([], []))) (oc_out c))
+                  | None => false
+                  end in
+        ((if b1 then 1 else 0) + (if b4 then 4 else 0))%N
+    end.
+
+Fixpoint omismatches_from (i : N) (cs : list ocase) : list (N * N) :=
+  match cs with
+  | [] => []
+  | c :: r =>
+      let code := run_ocase c in
+      if N.eqb code 0 then omismatches_from (N.succ i) r else (i, code) :: omismatches_from (N.succ i) r
+  end.
+Definition omismatches (cs : list ocase) : list (N * N) := omismatches_from 0 cs.
